@@ -108,8 +108,8 @@ def tie(ctx):
             def run(sample_reads, tag, profile_path=pbam, use_cnr=True):
                 sb = os.path.join(d, f"s{k}_{tag}.bam")
                 write(sb, sample_reads, gene)
-                prof = Profile.load(gene, profile_path, cnr if use_cnr else None)
                 try:
+                    prof = Profile.load(gene, profile_path, cnr if use_cnr else None)
                     smp = Sample(gene, prof, sb)
                     return region_values(smp, gene), None
                 except AldyException as e:
@@ -154,13 +154,16 @@ def tie(ctx):
             # (5) profile written to YAML and loaded again
             regs = {(gene.name, reg, gi): rng for gi, g in enumerate(gene.regions) for reg, rng in g.items()}
             data = Profile.get_sam_profile_data(pbam, regions=regs, genome=genome, cn_region=cnr)
-            ypath = os.path.join(d, f"p{k}.yml")
+            # one path for every sample of the run, as when a profile is regenerated in place: the file must be re-read
+            ypath = os.path.join(d, "profile.yml")
             with open(ypath, "w") as f:
                 f.write(yaml.dump(data, default_flow_style=None))
             fam["profile_yml"]["cases"] += 1
             vals_y, err_y = run(base * kk, "y", profile_path=ypath, use_cnr=False)
             if (vals_y is None) != (vals_k is None) or (vals_y is not None and any(abs(vals_y[q] - vals_k[q]) > 1e-9 for q in vals_y)):
                 fam["profile_yml"]["disagreements"].append({"why": f"profile loaded from the written YAML gives {vals_y and list(vals_y.items())[:2]} (err {err_y}), from the BAM {vals_k and list(vals_k.items())[:2]}", "input": inp})
+                violations.append({"why": f"a sample normalised against the profile file just written for it (same path as the previous sample's profile) reads {vals_y and list(vals_y.items())[:2]} (err {err_y}), against the same profile taken from the BAM {vals_k and list(vals_k.items())[:2]}",
+                                   "input": inp, "signature": "c07:profile_file_not_reread"})
             stats["read_sets"] += 1
             stats["reads"] += len(base)
             distinct.add(lib.canon_hash([y, cnr.start, cnr.end]))
